@@ -582,3 +582,25 @@ example : CReach disPwmCl (cinit disPwmCl) ∧ (cinit disPwmCl).todo = [] ∧
   ⟨CReach.init, rfl, rfl, by simp [noMaster, cinit]⟩
 
 end Poupool.ComposeProps
+
+/-! ## Side condition of the pair models, checked: only the master starts the slave
+
+The pair models refuse a start message that does not come from the master unless the master's phase is in `allowed`
+(`[]` for Disinfection, the PWMs and Heating's forcing side: "nobody else sends it").  `Gen.senders` lists every plain
+message any code sends (dispatcher table, tells, asks, self-tells — regenerated); for these pairs the only sender of a
+start message is the master.  (Swim's and the scheduled Heating's own starts are guarded rows: `C13.swim_start_is_guarded`,
+C06.) -/
+namespace Poupool.ComposeProps
+open Poupool Poupool.Gen Poupool.Compose
+
+/-- who sends `receiver` a message that can take it out of its halted states -/
+def startSenders (receiver : String) (msgs : List String) (isStart : Msg → Bool) : List String :=
+  ((senders.filter fun (_, r, m) => r == receiver && msgs.contains m && isStart (.plain (msgs.idxOf m))).map (·.1)).eraseDups
+
+theorem only_master_starts :
+    startSenders "Disinfection" disinfectionMsgs filtDis.isStart = ["Filtration"] ∧
+    startSenders "PWMph" pwmMsgs disPwm.isStart = ["Disinfection"] ∧
+    startSenders "PWMcl" pwmMsgs disPwmCl.isStart = ["Disinfection"] ∧
+    startSenders "Heating" heatingMsgs filtHeat.isStart = ["Filtration"] := by decide +kernel
+
+end Poupool.ComposeProps
